@@ -29,25 +29,31 @@ import (
 //	remove its file     (removeFileFunc; seam pkg/queue/page/export_verif.go VerifSetRemoveFile)
 //	drop it from its map
 //
-// GC holds no queue lock while it does that, so every other actor of the queue may run between any
-// two of these steps in production: appenders, the consumer that acknowledges, readers, and the
-// replication handshake that resets the log position (Queue.SetAppendedSeq - also backwards, onto
-// the very index page that is being collected: the next append needs that page id again).
-// The harness owns the four points of every expired page (before / after the unmap, before / after
-// the file removal). In "actor" mode a generated script of another actor is started at one generated
-// point (kind of factory, expired page, phase) and runs to completion there - or, when the
-// implementation makes it wait for the truncation (today: the factory lock is held for the whole
-// truncation), GC goes on and the script finishes when it can, like a blocked goroutine would.
-// In "observer" mode every point is reported (gccrash_test.go takes directory images there).
+// GC runs on the WAL housekeeping goroutine; appenders, the consumer that acknowledges, readers and
+// the replication handshake that resets the log position (Queue.SetAppendedSeq - also backwards,
+// onto the very index page that is being collected: the next append needs that page id again) run
+// on others. Whatever the implementation does not exclude by a lock can happen between any two of
+// the steps above. Up to /repo e5b201e GC held no queue lock at all (only the factory kept its own
+// mutex for one TruncatePages); since then GC holds the queue's read lock from its start to its end,
+// so writers wait and only readers get as far as the mutex of the truncating factory.
 //
-// Whether the actor waits is noticed without looking at the clock as a correctness signal: every
-// factory call of the queue goes through seamFactory, which tells the seam when the actor enters /
-// leaves a call of the factory that is inside TruncatePages. Only "has this call returned yet" needs
-// a grace period; it decides which of two legal schedules is explored, never a verdict.
+// The harness owns these points: "enter" (GC is about to call TruncatePages of a factory) and the
+// four points of every expired page (before / after the unmap, before / after the file removal). In
+// "actor" mode a generated script of another actor is started at one generated point (kind of
+// factory, expired page, phase) and runs to completion there - or, when the implementation makes it
+// wait for GC, GC goes on and the script finishes when it can, like a blocked goroutine would. In
+// "observer" mode every point is reported (gccrash_test.go takes directory images there).
 //
-// Locks (why nothing here can dead-lock): GC holds only the mutex of the factory it truncates. The
-// actor may wait for that mutex while it holds the queue's rwMutex / putMutex (persistMetaOfMessage
-// -> AcquirePage); GC needs neither after it sampled the acknowledged sequence.
+// Whether the actor waits is noticed without using the clock as a correctness signal: every factory
+// call of the queue goes through seamFactory, which tells the seam when the actor enters / leaves a
+// call of the factory that is inside TruncatePages (grace period for "has this call returned"), and
+// the script reports the start and the end of each step (idle period for "waits for something else
+// GC holds"). Both periods only decide which of two legal schedules is explored, never a verdict.
+//
+// Locks (why nothing here can dead-lock): GC holds the queue's read lock and the mutex of the
+// factory it truncates; the hooks of the harness run on the GC goroutine and take neither. The actor
+// may wait for either of them (also while it holds putMutex); GC never waits for the actor longer
+// than the grace / idle period.
 
 const (
 	truncGrace   = 30 * time.Millisecond  // a factory call of the actor that has not returned by then waits for the truncation
